@@ -217,6 +217,13 @@ func (u *UserHash) writeHashStr(password string, isAdmin bool, mayCreate bool) e
 		return err
 	}
 
+	// Open the directory first: failing to do so must not be reported after the move
+	dir, err := os.Open(filepath.Dir(file.Name()))
+	if err != nil {
+		return err
+	}
+	defer dir.Close() //nolint:errcheck
+
 	// Atomically move the new file in place
 	if err := os.Rename(tmp.Name(), file.Name()); err != nil {
 		return err
@@ -224,11 +231,6 @@ func (u *UserHash) writeHashStr(password string, isAdmin bool, mayCreate bool) e
 	stored = true
 
 	// Flush the move to disk
-	dir, err := os.Open(filepath.Dir(file.Name()))
-	if err != nil {
-		return err
-	}
-	defer dir.Close() //nolint:errcheck
 	return dir.Sync()
 }
 
